@@ -849,12 +849,17 @@ func (c *control) dirInt(colon, at bool, params []any, base int) {
 	default:
 		neg = true // stops @ addition of a +
 		colon = false
+		// Not an integer, print as ~A would in base 10.
 		p := *slip.DefaultPrinter()
 		p.ScopedUpdate(c.scope)
-		p.Escape = true
-		p.Readably = true
+		p.Escape = false
+		p.Readably = false
 		p.Base = 10
-		out = p.Append(nil, ta, 0)
+		if ss, ok := ta.(slip.String); ok {
+			out = append(out, ss...)
+		} else {
+			out = p.Append(nil, ta, 0)
+		}
 	}
 	if at && !neg {
 		out = append([]byte{'+'}, out...)
